@@ -38,7 +38,20 @@ pub trait TerminationCondition {
     // deliberately NO postcondition: every interrupt schedule is covered (C11)
     fn should_stop(&mut self) -> bool;
 }
+pub struct RandomGen { pub x: u8 }
+pub struct InternalParameters { pub random_generator: RandomGen }
+pub struct SelectionContext<'a> { pub assignments: &'a EngineAssignments, pub random_generator: &'a mut RandomGen }
+impl<'a> SelectionContext<'a> {
+    pub fn new(assignments: &'a EngineAssignments, rng: &'a mut RandomGen) -> (r: Self)
+        ensures r.assignments == assignments
+    { SelectionContext { assignments, random_generator: rng } }
+}
 pub trait Brancher {
+    // statement of C18 (assumed here, decided by the branching checks): a proposed decision is undecided,
+    // in particular it can still be satisfied inside the current domains
+    fn next_decision(&mut self, context: &mut SelectionContext) -> (r: Option<Predicate>)
+        ensures r is Some ==> exists|a: Asg| #![trigger (old(context).assignments.live@)(a)] (old(context).assignments.live@)(a) && pred_holds(r->Some_0, a),
+                final(context).assignments == old(context).assignments;
     fn on_conflict(&mut self);
     fn is_restart_pointless(&mut self) -> bool;
 }
@@ -62,7 +75,8 @@ impl EngineAssignments {
     #[verifier::external_body]
     pub fn post_predicate(&mut self, predicate: Predicate, reason: Option<u32>) -> (r: Result<(), EmptyDomain>)
         ensures final(self).level == old(self).level,
-                forall|a: Asg| #[trigger] (final(self).live@)(a) <==> ((old(self).live@)(a) && pred_holds(predicate, a)),
+                forall|a: Asg| #![trigger (final(self).live@)(a)] #![trigger (old(self).live@)(a)] (final(self).live@)(a) <==> ((old(self).live@)(a) && pred_holds(predicate, a)),
+                r is Err ==> live_empty(final(self).live@),
     { unimplemented!() }
     #[verifier::external_body]
     pub fn grow(&mut self, lower_bound: i32, upper_bound: i32) -> (r: DomainId)
@@ -103,6 +117,7 @@ pub struct ConstraintSatisfactionSolver {
     pub restart_strategy: RestartStrategy,
     pub solver_statistics: SolverStatistics,
     pub variable_names: VariableNames,
+    pub internal_parameters: InternalParameters,
 }
 
 impl ConstraintSatisfactionSolver {
@@ -161,21 +176,7 @@ impl ConstraintSatisfactionSolver {
                 final(self).state.internal_state is Solving,
     { unimplemented!() }
 
-    // ASSUMED until the map_err closure is within the desugaring rules: state effects of make_next_decision
-    #[verifier::external_body]
-    pub fn make_next_decision<B: Brancher>(&mut self, brancher: &mut B) -> (r: Result<(), CSPSolverExecutionFlag>)
-        requires old(self).state.internal_state is Solving
-        ensures final(self).assumptions == old(self).assumptions,
-            match r {
-                Ok(_) => final(self).state.internal_state is Solving && final(self).assignments.level == old(self).assignments.level + 1,
-                Err(CSPSolverExecutionFlag::Feasible) => final(self).state.internal_state is ContainsSolution
-                    && old(self).assignments.level >= old(self).assumptions@.len(),
-                Err(CSPSolverExecutionFlag::Infeasible) => final(self).state.internal_state is InfeasibleUnderAssumptions
-                    && old(self).assignments.level < old(self).assumptions@.len() && final(self).assignments.level > 0,
-                Err(CSPSolverExecutionFlag::Timeout) => false,
-            }
-    { unimplemented!() }
-
+//@@EXTRACT csp_decide@@
 //@@EXTRACT csp@@
 }
 
